@@ -261,11 +261,17 @@ func c15Histories(r *ev.Run) {
 			}
 			for i := range alpha {
 				child := h // the handler is a plain struct: branching clones its state
+				held := held
 				if !c15HandlerCopyable {
-					// it holds maps, slices or pointers: a fresh one, brought to this state by replay
+					// it holds maps, slices or pointers: a fresh one, brought to this state by
+					// replay - and the held messages are those of the replay, so that what they
+					// share with THIS handler (scratch buffers, tables) is still shared
 					child = *handler.New(T0, lvl)
+					held = nil
 					for _, k := range hist {
-						decodeDisplay(&child, alpha[k].bytes, true)
+						if rr, rf := decodeDisplay(&child, alpha[k].bytes, true); rf == "" && rr.msg != nil {
+							held = append(held, kept{rr.msg, k})
+						}
 					}
 				}
 				res, fault := decodeDisplay(&child, alpha[i].bytes, true)
@@ -403,8 +409,12 @@ func c15Histories(r *ev.Run) {
 				}
 				for _, ai := range sub {
 					child := h
+					held := held
 					if !c15HandlerCopyable {
+						// fresh handler brought to this state by replay; the held messages are
+						// those the replay delivered (they may share storage with this handler)
 						child = *handler.New(T0, lvl)
+						held = nil
 						for _, nm := range hist {
 							for _, a := range alpha {
 								if a.name == nm {
@@ -418,6 +428,20 @@ func c15Histories(r *ev.Run) {
 										defer func() { recover() }()
 										child.HandleMessages(rin, rout)
 									}()
+								drain:
+									for {
+										select {
+										case m, ok := <-rout:
+											if !ok {
+												break drain
+											}
+											if _, _, pn := guardM(func() { _ = m.String() }); !pn {
+												held = append(held, heldMsg{m, append([]byte{}, m.RawData...), stripTimeLines(m.String()), a.name})
+											}
+										default:
+											break drain
+										}
+									}
 									break
 								}
 							}
